@@ -109,6 +109,18 @@ var AnchorSpecs = []norm.AnchorSpec{
 	{Pkg: ModPath + "/css", Name: "splitValues", Sig: "(string) []string"},
 }
 
+// IsMemberSig: func(string, []string) bool or func([]string, string) bool, no receiver.
+func IsMemberSig(sig *types.Signature) bool {
+	if sig.Recv() != nil || sig.Params().Len() != 2 || sig.Results().Len() != 1 || sig.Variadic() {
+		return false
+	}
+	if b, ok := sig.Results().At(0).Type().(*types.Basic); !ok || b.Kind() != types.Bool {
+		return false
+	}
+	a, b := sig.Params().At(0).Type().String(), sig.Params().At(1).Type().String()
+	return a == "string" && b == "[]string" || a == "[]string" && b == "string"
+}
+
 func loadPkgs(cfg Config, mode packages.LoadMode, overlay map[string][]byte) ([]*packages.Package, *packages.Config, error) {
 	pc := &packages.Config{
 		Mode:    mode,
@@ -172,7 +184,12 @@ func normalise(cfg Config) (map[string][]byte, []string) {
 		if f.Pkg() == nil {
 			return true
 		}
-		return Anchors[f.Pkg().Path()+"."+f.Name()]
+		if Anchors[f.Pkg().Path()+"."+f.Name()] {
+			return true
+		}
+		// membership helpers of the css package — f(string, []string) bool in either order — are kept as calls: the
+		// handler-language rules model them as leaf acceptors once their body has been checked (C18.R8)
+		return f.Pkg().Path() == ModPath+"/css" && IsMemberSig(f.Type().(*types.Signature))
 	}
 	counter := 0
 	changed := false
